@@ -927,6 +927,20 @@ struct AltSession final : Session {
             if (op == "swap") std::swap(A, B);
             return line();
         }
+        if constexpr (O == Own::var && copyable) {
+            // converting assignment from the variant's own live alternative: `v = get<index()>(v)`
+            if (op == "vassign_own") {
+                {
+                    Window w;
+                    switch (a.index()) {
+                    case 0: a = a[etl::index_v<0>]; break;
+                    case 1: a = a[etl::index_v<1>]; break;
+                    default: a = a[etl::index_v<2>]; break;
+                    }
+                }
+                return line();
+            }
+        }
         if (op == "use") {
             int got = 0;
             {
